@@ -203,3 +203,5 @@ def check(facts, rep, tier, cfg):
             k6 += 1
             rep.bad("C06.R6", v["key"].split("/", 1)[1], v["where"], v["msg"])
     rep.floor("C06.R6", "local flow-id allocations", k6, 1)
+    rep.rule("C06.R7", "only the stream handle (own id) and the multiplexor handle (0) report on the dropped-flows queue: no stale report can abort a flow that re-used an id")
+    check_dropped_flow_senders(facts, rep, crate, "C06.R7")
